@@ -2,8 +2,8 @@
 
 Everything is drawn from the PRNG passed in; nothing else is consulted."""
 
-KNOB_MAX = [1, 50, 1012, 6000, 10000]
-KNOB_MAX_WEIGHTS = [1, 2, 3, 10, 3]
+KNOB_MAX = [1, 50, 1012, 6000, 10000, 70000]
+KNOB_MAX_WEIGHTS = [1, 2, 3, 10, 3, 1]
 
 
 def pick_knob(rng):
@@ -21,6 +21,8 @@ def gen_len(rng, maxlen):
         v = rng.randint(2016, 2030)        # around two payloads
     elif r < 0.58:
         v = rng.choice([maxlen, maxlen - 1, maxlen - 2])
+    elif r < 0.62 and maxlen >= 65537:
+        v = rng.choice([65535, 65536, 65537])
     elif r < 0.75:
         v = rng.randint(1, 64)
     elif r < 0.90:
